@@ -252,6 +252,13 @@ func (c *Ctx) VerifyFunc(pkgPath, key string) (rep *FuncReport) {
 	}
 	// every at-call clause must have matched at least one call (otherwise the contract silently stopped applying)
 	for i, ac := range con.AtCalls {
+		if !fr.atCallHit[i] && len(fr.deferredAt[i]) > 0 {
+			for _, ob := range fr.deferredAt[i] {
+				c.Obs = append(c.Obs, ob)
+			}
+			c.note("%s: at-call clause for %s has no call site in the function itself; it is checked at the call(s) reached through inlined helpers", fn, ac.Callee)
+			continue
+		}
 		if !fr.atCallHit[i] {
 			c.oblige(fr, "at-call", ac.Callee+"."+clauseName("", ac.Clause, i)+"@missing", fr.Entry, TFalse, "the function no longer calls "+ac.Callee+" (at-call clause has no call site)", 0)
 		}
